@@ -92,7 +92,11 @@ def gen_sched(rng, n_cmds=None):
             case["tags"].add("step_until")
         elif r < 0.95:
             val += 1
-            ok10 = now_known and horizon % 10 == 0
+            # process_event on an input whose handler schedules (1, 2) only while the time is certainly the
+            # start time: after a step the time may be a handler-scheduled one (not a multiple of 10) and a
+            # handler deadline could then coincide with a driver deadline (two origins due at one time:
+            # the order between them is schedule-dependent)
+            ok10 = now_known and horizon == t0 and t0 % 10 == 0 and not any(c[0] in ("st", "su") for c in cmds)
             cmds.append(("pe", 0, rng.choice([0, 1, 2, 3] if ok10 else [0, 3]), val))
         else:
             cmds.append(("rs", 0))
